@@ -19,9 +19,9 @@ def runs_for(prop, tier):
         "C04": [R("core"), R("gang"), R("preempt", .6)],
         "C05": [R("limits", 1.5), R("core", .5)],
         "C06": [R("gang", 2), R("core", .5)],
-        "C07": [R("preempt", 1.5), R("preempt2", 1.5)],
+        "C07": [R("preempt", 1.5), R("preempt2", 1.5), R("quota", .7)],
         "C08": [R("preempt", 1.5), R("preempt2", 1.5), R("quota")],
-        "C09": [R("reserve", 1.5), R("core"), R("preempt", .6)],
+        "C09": [R("reserve", 1.5), R("core"), R("preempt", .6), R("extbind", .6)],
         "C10": [R("core"), R("gang", 1.5)],
         "C11": [R("core", 1.5), R("reload"), R("dyn")],
         "C16": [R("reload", 2), R("quota", .6), R("limits", .6)],
